@@ -140,6 +140,10 @@ def run(tier):
     # ManyStems members fill the hinter's map of 96 edges from both parities
     res = vlib.run_harness("fv-total", ["cs", "skrifa", "--cases", r.out, "--out", os.path.join(wd, "charstring_skrifa.ndjson")], timeout=3000)
     ck.add_harness("replay:charstring-skrifa", res, traces=False)
+    # subroutines as a DAG (each calls the next k times, nine levels deep: k^9 calls within the nesting limit), in child
+    # processes with a deadline
+    res = vlib.run_harness("fv-total", ["cs", "fanout", "--deadline", 5, "--out", os.path.join(wd, "fanout.ndjson")], timeout=600)
+    ck.add_harness("charstring-fanout", res, traces=False)
     os.remove(r.out)
     validate(ck, wd, "charstring", t6, module="CharstringTrace")
     t7 = os.path.join(wd, "charstring_corpus.ndjson")
